@@ -115,9 +115,10 @@ def props_theorems(pid):
     src = strip_comments(open(p).read())
     names = re.findall(r"^\s*Theorem\s+(\w+)", src, re.M)
     # the Props file may contain nothing but Theorem / Proof. exact … Qed. / Redirect Print Assumptions
-    body = re.sub(r"Theorem\s+\w+\s*:.*?\.\s*Proof\.\s*(intros[^.]*\.\s*)?exact\s[^.]*?\.\s*Qed\.", "", src, flags=re.S)
+    # (one `exact` sentence; a dot inside it only as part of a qualified name)
+    body = re.sub(r"Theorem\s+\w+\s*:.*?\.\s*Proof\.\s*(intros[^.]*\.\s*)?exact\s(?:[^.]|\.(?=[A-Za-z_]))*?\.\s*Qed\.", "", src, flags=re.S)
     body = re.sub(r'Redirect\s+"[^"]*"\s+Print\s+Assumptions\s+\w+\s*\.', "", body)
-    body = re.sub(r"From\s+\w+\s+Require\s+Import[^.]*(\.[A-Za-z_][^.]*)*\.\s", "", body)
+    body = re.sub(r"From\s+\w+\s+Require\s+(Import\s+)?[^.]*(\.[A-Za-z_][^.]*)*\.\s", "", body)
     body = re.sub(r"(Require\s+Import|Import|Local\s+Open\s+Scope|Open\s+Scope)[^.]*\.\s", "", body)
     leftover = body.strip()
     return names, leftover
